@@ -594,7 +594,7 @@ def g_member(rng, en):
 def g_cp(rng):
     mode = rng.random()
     c = {f: None for f in CP_FIELDS}
-    if mode < 0.12:        # nothing truthy: the F15 class
+    if mode < 0.12:        # nothing truthy: empty structure (known finding) or falsy values only (kept since fix 46c741e)
         for f in rng.sample(['riv', 'ivl', 'tagl', 'fixl', 'invl', 'ctrl', 'icv'], rng.randint(0, 3)):
             c[f] = False if f == 'riv' else 0
         return c
@@ -722,13 +722,13 @@ def g_attrs(rng, ver, secret):
 
 
 # ====================================================================== direct oracle (no model)
-def cp_falsy_only(c):
-    return c is not None and not any(c.values())
+def cp_empty(c):
+    return c is not None and all(v is None for v in c.values())
 
 
 def oracle_strip_falsy(s):
-    """The registered secret with every falsy-only cryptographic-parameters structure removed (and a key information structure
-    that then has nothing truthy left removed too): what F15 predicts."""
+    """The registered secret with every present-but-empty cryptographic-parameters structure turned into an absent one: what the
+    remaining known finding predicts."""
     s = json.loads(json.dumps(s, default=lambda b: {'__b': b.hex()}))
 
     def fix(o):
@@ -742,10 +742,8 @@ def oracle_strip_falsy(s):
     if kb and kb['kwd']:
         for which in ('eki', 'mski'):
             ki = kb['kwd'][which]
-            if ki is not None and (cp_falsy_only(ki['cp']) or ki['cp'] is None):
+            if ki is not None and cp_empty(ki['cp']):
                 ki['cp'] = None
-                if not ki['uid']:
-                    kb['kwd'][which] = None
     return s
 
 
@@ -811,9 +809,9 @@ def oracle_get(ctx, reg, obs, ver, when, err=None):
                       'Get fails for a stored %s' % name)
         return
     if obs == oracle_strip_falsy(s):
-        ctx.count('oracle.known.falsy-only-cryptographic-parameters')
-        ctx.violation({'op': 'GET', 'field': 'key_wrapping_data.cryptographic_parameters', 'registered': 'falsy-only', 'returned': 'absent'},
-                      witness, 'key wrapping data whose cryptographic parameters hold only falsy values come back without them')
+        ctx.count('oracle.known.empty-cryptographic-parameters')
+        ctx.violation({'op': 'GET', 'field': 'key_wrapping_data.cryptographic_parameters', 'registered': 'empty-structure', 'returned': 'absent'},
+                      witness, 'an empty cryptographic-parameters structure inside key wrapping data comes back absent')
         return
     if s['k'] == 'secret':
         norm = dict(s, kb={'fmt': E.KeyFormatType.OPAQUE.value, 'value': s['kb']['value'], 'alg': None, 'len': None, 'kwd': None})
@@ -1194,10 +1192,10 @@ def corpus():
     kw = lambda cpd, uid='7': {'method': 1, 'eki': {'uid': uid, 'cp': cpd}, 'mski': None, 'mac': None, 'iv': None, 'enc': 1}
     name = lambda v, t, i: {'kind': 'name', 'idx': i, 'v': v, 't': t}
     return [
-        ((1, 4), sym(kw(dict(cpn, riv=False))), []),                                  # F15 witness: random_iv = False alone
-        ((1, 2), sym(kw(dict(cpn, ivl=0))), []),                                      # F15: iv_length = 0 alone
-        ((1, 0), sym(kw(dict(cpn, riv=False, tagl=0), uid='')), []),                   # F15 with an empty key identifier
-        ((2, 0), sym(kw(dict(cpn))), []),                                             # empty parameters structure
+        ((1, 4), sym(kw(dict(cpn, riv=False))), []),                                  # random_iv = False alone (lost before fix 46c741e)
+        ((1, 2), sym(kw(dict(cpn, ivl=0))), []),                                      # iv_length = 0 alone
+        ((1, 0), sym(kw(dict(cpn, riv=False, tagl=0), uid='')), []),                   # falsy values with an empty key identifier
+        ((2, 0), sym(kw(dict(cpn))), []),                                             # empty parameters structure: the remaining known finding
         ((1, 4), sym(kw(dict(cpn, riv=False, bcm=1))), []),                           # falsy next to truthy: kept
         ((1, 1), sym(kw(dict(cpn, bcm=1)), b''), [name('n', 2, 0)]),                   # URI name, empty key value under wrapping data
         ((1, 3), sym(None, b''), [{'kind': 'len', 'idx': None, 'z': 128}]),            # length attribute over a zero length
